@@ -404,9 +404,15 @@ def to_node(
                 selected_node, _ = scope.selected_sources.get(table, (None, None))
                 reference_node_name = selected_node.name if selected_node else None
 
+            # A column list on a CTE reference (FROM cte AS t(x, y)) renames the CTE's projections by position
+            source_column: str | int = c.name
+            selected_node, _ = scope.selected_sources.get(table, (None, None))
+            if isinstance(selected_node, exp.Table) and c.name in selected_node.alias_column_names:
+                source_column = selected_node.alias_column_names.index(c.name)
+
             # The table itself came from a more specific scope. Recurse into that one using the unaliased column name.
             to_node(
-                c.name,
+                source_column,
                 scope=col_source,
                 dialect=dialect,
                 scope_name=table,
